@@ -113,6 +113,16 @@ func (g *G) Index() map[int64]int {
 	return m
 }
 
+// HasNegWeight reports whether some edge has a negative weight.
+func (g *G) HasNegWeight() bool {
+	for _, e := range g.Edges() {
+		if g.W[e[0]][e[1]] < 0 {
+			return true
+		}
+	}
+	return false
+}
+
 // HasZeroWeight reports whether some edge has weight exactly zero.
 func (g *G) HasZeroWeight() bool {
 	for _, e := range g.Edges() {
